@@ -27,6 +27,45 @@ def handleGuard (args : List Sx) : String :=
     | _, _, _ => "bad-op"
   | _ => "bad-op"
 
+/-- `c13.sane matcher inp` → `1` iff the table's spans lie inside the input at or after the search position
+(`spanSaneB`, the matcher contract of `C13_context`). -/
+def handleSane (args : List Sx) : String :=
+  match args with
+  | [m, inp] =>
+    match parseMatcher m, inp.bytes? with
+    | some mk, some inp =>
+      let g0 := spanSaneB (mk inp false) inp
+      let g1 := spanSaneB (mk inp true) inp
+      if g0 == g1 then (if g0 then "1" else "0") else "table-miss"
+    | _, _ => "bad-op"
+  | _ => "bad-op"
+
+/-- `c13.invsame cfg matcher inp` → `1` iff the inverted scan selects the lines the specification selects
+(`invCoverSame`, the inversion clause of the guard of `C13_partial`). -/
+def handleInvSame (args : List Sx) : String :=
+  match args with
+  | [cfg, m, inp] =>
+    match parseCfg cfg, parseMatcher m, inp.bytes? with
+    | some cfg, some mk, some inp =>
+      let g0 := invCoverSame cfg (mk inp false) inp
+      let g1 := invCoverSame cfg (mk inp true) inp
+      if g0 == g1 then (if g0 then "1" else "0") else "table-miss"
+    | _, _, _ => "bad-op"
+  | _ => "bad-op"
+
+/-- `c13.specinv cfg matcher inp` → `mlSpecInv`: the grep model for the lines outside the matches the inverted
+scan finds (theorem `C13_inverted`). -/
+def handleSpecInv (args : List Sx) : String :=
+  match args with
+  | [cfg, m, inp] =>
+    match parseCfg cfg, parseMatcher m, inp.bytes? with
+    | some cfg, some mk, some inp =>
+      let r0 := showEvents (mlSpecInv cfg (mk inp false) inp)
+      let r1 := showEvents (mlSpecInv cfg (mk inp true) inp)
+      if r0 == r1 then r0 ++ "|ok" else "table-miss"
+    | _, _, _ => "bad-op"
+  | _ => "bad-op"
+
 /-- `c13.matches matcher inp` → the successive matches `s:e …` of the spec's iteration. -/
 def handleMatches (args : List Sx) : String :=
   match args with
@@ -42,13 +81,16 @@ def handleMatches (args : List Sx) : String :=
 
 /-- Request handler of property C13: `c13.model cfg matcher inp sink` (M: `Searcher::search_slice`, which
 picks `MultiLine` when `ml 1` and the matcher can match the terminator), `c13.spec`, `c13.guard`,
-`c13.matches`, `c13.path cfg matcher`. -/
+`c13.matches`, `c13.sane`, `c13.invsame`, `c13.specinv`, `c13.path cfg matcher`. -/
 def handle (cmd : String) (args : List Sx) : String :=
   match cmd with
   | "c13.model" => handleModel args
   | "c13.spec" => handleMlSpec args
   | "c13.guard" => handleGuard args
   | "c13.matches" => handleMatches args
+  | "c13.sane" => handleSane args
+  | "c13.invsame" => handleInvSame args
+  | "c13.specinv" => handleSpecInv args
   | "c13.path" => handlePath args
   | _ => "bad-op"
 
